@@ -27,6 +27,10 @@ CHECKS = {
          "at any chunk): per-entry result = single verification, summary = conjunction, indices in range, fallback justified; R2: TLC-generated batch matrix (sizes x chunk positions x 20 badness kinds x "
          "options); R3: every real call replayed by TLC through the same state machine with the real constants, binding the hook events recorded at the code's linearization points, the result vector "
          "and the real single verifier; chunk equation predicted exactly from the logged randomisers"),
+ "C13": ("4 C13", "R1: option table by TLC; R2: TLC enumerates the argument-shape matrix (function x lengths incl. nil x option classes x aliasing); R3: every shape replayed on the real API under recover "
+         "with sentinel-filled spare capacity and overlapping arguments; outcome class and frame condition validated by TLC against Api.tla; malformed batch entries at every position through Batch.tla"),
+ "C14": ("4 C14", "R3: GenerateKey on exact / long / chunked / short / failing / nil readers (bytes consumed, error propagation, coherence with NewKeyFromSeed and crypto/ed25519), accessor freshness by mutation, "
+         "Equal over every single-byte difference, length differences and foreign types; each event validated by TLC against Api.tla (GenKeyExpected, EqualExpected)"),
  "C17": ("4 C17", "R1: exhaustive TLC model check of the Bos-Coster heap algorithm (2-bit limbs, formal points): sum preserved at every step, truncated comparisons exact, heap order, result exact unless "
          "flagged design-inexact; R3: every iteration of the real multiScalarmultVartime (heap hook) replayed by TLC on the real 253-bit scalars, result compared with the exact sum; "
          "all-valid batches of all sizes must show Equation(1) and no Fallback event in every chunk (hook trace validated through Batch.tla)"),
